@@ -54,6 +54,16 @@ def admits(allowed, o, shell=False):
     return any(a["t"] == o["t"] for a in allowed)
 
 
+_OPS = ["<<=", ">>=", "||", "&&", "|=", "^=", "&=", "==", "!=", "<=", ">=", "<<", ">>", "+=", "-=", "*=", "/=", "%=",
+        "++", "--", "?", ":", "|", "^", "&", "=", "!", "<", ">", "+", "-", "*", "/", "%", "~", "(", ")"]
+_TOK = re.compile("|".join(re.escape(o) for o in _OPS))
+
+
+def count_ops(text, acc):
+    for m in _TOK.finditer(text):
+        acc[m.group(0)] = acc.get(m.group(0), 0) + 1
+
+
 def compact_env(env):
     return {k: (v["s"] if v["set"] else None) for k, v in sorted(env.items())}
 
@@ -81,6 +91,8 @@ def judge_gen(rep, gen_path, obs_path, direction, stats, samples):
             n += 1
             fam = g["id"][0]
             stats["by_family"][fam] = stats["by_family"].get(fam, 0) + 1
+            if not shell:
+                count_ops(g["text"], stats["ops"])
             if len(samples) < 4 and i in (17, 20011, 40507, 90001) and not shell:
                 samples.append({"text": g["text"], "env": compact_env(g["env"]),
                                 "allowed": [show_out(a) for a in g["allowed"]], "observed": show_out(o)})
@@ -191,14 +203,12 @@ def run(tier):
 
     # 1. spec -> impl
     gen = os.path.join(wd, "gen.ndjson")
-    r = vlib.tlc("Gen_Arith", T["gen_cfg"], workers=T["workers"], timeout=3000, json_out=gen, xmx="3g",
-                 coverage=(tier == "quick"))
+    r = vlib.tlc("Gen_Arith", T["gen_cfg"], workers=T["workers"], timeout=3000, json_out=gen, xmx="3g")
     vlib.tlc_must_pass(r, f"generator {T['gen_cfg']}")
     states, transitions = r.distinct, r.generated
-    coverage = dict(r.coverage)
     n_gen = vlib.count_lines(gen)
     vlib.log(f"[tlc] {T['gen_cfg']}: {r.distinct} states, {n_gen} cases with allowed outcomes, {r.wall:.1f}s")
-    stats = {"by_family": {}, "error_classes": {}, "unspecified": 0}
+    stats = {"by_family": {}, "error_classes": {}, "unspecified": 0, "ops": {}}
     samples = []
     obs = os.path.join(wd, "obs.ndjson")
     vlib.run_harness(PKG, ["replay", "--in", gen, "--out", obs])
@@ -208,7 +218,7 @@ def run(tier):
     if n_replayed != n_gen:
         raise vlib.ToolError(f"replayed {n_replayed} of {n_gen} cases")
     shobs = os.path.join(wd, "shell.ndjson")
-    sh_stats = {"by_family": {}, "error_classes": {}, "unspecified": 0}
+    sh_stats = {"by_family": {}, "error_classes": {}, "unspecified": 0, "ops": {}}
     vlib.run_harness(PKG, ["shell", "--in", gen, "--every", T["shell_every"], "--out", shobs], timeout=3000)
     n_shell = judge_gen(rep, gen, shobs, "shell", sh_stats, [])
     vlib.log(f"[p4] {n_shell} generated cases run through the whole shell ($((..)), incl. $((x)) vs $(($x)))")
@@ -261,13 +271,17 @@ def run(tier):
         "generated_cases": n_gen,
         "cases_by_family": {str(k): v for k, v in sorted(stats["by_family"].items())},
         "unspecified_outcome_cases": stats["unspecified"],
+        "operators_in_generated_texts": dict(sorted(stats["ops"].items())),
         "shell_cases": n_shell,
         "random_trees": n_rand, "random_depth": T["random_depth"],
         "soup_texts": n_soup, "shell_soup_texts": n_ssoup,
         "soup_outcome_classes": dict(sorted(soup_classes.items(), key=lambda kv: -kv[1])[:12]),
         "error_class_spec_vs_impl": stats["error_classes"],
         "oracle_sanity_pairs": sanity_states,
-        "tlc_action_coverage": coverage,
+        "tlc_action_coverage": {"Next": transitions},
+        "coverage_note": "the generator model has the single action Next; TLC's -coverage mode is infeasible on the "
+                         "recursive oracle (441 states did not finish in 280 s), so exercise of the specification is "
+                         "measured by cases_by_family, operators_in_generated_texts and error_class_spec_vs_impl",
         "known_finding_cases": known,
     }, time.time() - t0, violations=len(rep.violations), assumptions=[
         "TLC and the Json/IOUtils community modules are trusted",
